@@ -503,21 +503,51 @@ theorem addCID_WFL {tbl : Table} {k : Nat} {rc : List Tree} {s : St} {rc' : List
   obtain ⟨new, hn, hl⟩ := addCID_E heq
   rw [hn]; exact (WFL_append _ _ _).2 ⟨WFL_of_leaves hl, hw⟩
 
-theorem programLoop_E {f : F} (hf : FE env.tbl f) {unit : Cls} {fuel k : Nat} {rc : List Tree}
-    {s : St} {rc' : List Tree} {s' : St} (hw : WFL env.tbl rc)
-    (heq : programLoop env f unit fuel k rc s = (.done rc', s')) : WFL env.tbl rc' := by
+theorem unitStep_E {f : F} (hf : FE env.tbl f) {fuel : Nat} {unit main0 : Cls} {rc : List Tree}
+    {s : St} {rc1 : List Tree} {s' : St} (hw : WFL env.tbl rc)
+    (heq : unitStep env f fuel unit main0 rc s = (.go rc1, s')) : WFL env.tbl rc1 := by
+  unfold unitStep at heq
+  split at heq
+  · split at heq
+    · split at heq
+      · rename_i c0 s2 hb
+        simp only [Prod.mk.injEq, UnitStep.go.injEq] at heq
+        rw [← heq.1]
+        exact (WFL_append _ _ _).2 ⟨(WFL_reverse _ _).2 (blockMatch_E hf hb).1, hw⟩
+      · simp at heq
+      · simp at heq
+    · simp at heq
+  · rename_i o s1 _ h1
+    simp only [Prod.mk.injEq, UnitStep.go.injEq] at heq
+    rw [← heq.1]
+    have ho : ESpec env.tbl o := by have := hf unit s; rw [h1] at this; exact this
+    exact pushTree_E ho hw
+
+theorem programLoop_E {f : F} (hf : FE env.tbl f) {unit main0 : Cls} {fuel k : Nat}
+    {rc : List Tree} {s : St} {rc' : List Tree} {s' : St} (hw : WFL env.tbl rc)
+    (heq : programLoop env f unit main0 fuel k rc s = (.done rc', s')) : WFL env.tbl rc' := by
   induction k generalizing rc s with
   | zero => simp only [programLoop] at heq; simp at heq
   | succ k ih =>
     simp only [programLoop] at heq
     split at heq
-    · simp at heq
-    · rename_i o s1 _ h1
-      have ho : ESpec env.tbl o := by have := hf unit s; rw [h1] at this; exact this
+    · rename_i r1 s1 h1
+      -- a `stop` result is never `done`
+      exfalso
+      simp only [Prod.mk.injEq] at heq
+      obtain ⟨rfl, _⟩ := heq
+      unfold unitStep at h1
+      split at h1
+      · split at h1
+        · split at h1 <;> simp at h1
+        · simp at h1
+      · simp at h1
+    · rename_i rc1 s1 h1
+      have hw1 := unitStep_E hf hw h1
       split at heq
       · simp at heq
       · rename_i rc2 s2 h2
-        have hw2 := addCID_WFL (pushTree_E ho hw) h2
+        have hw2 := addCID_WFL hw1 h2
         split at heq
         · simp only [Prod.mk.injEq, PRes.done.injEq] at heq
           rw [← heq.1]; exact hw2
@@ -536,8 +566,10 @@ theorem programMatch_E {f : F} (hf : FE env.tbl f) {fuel : Nat} {unit main0 : Cl
     · rename_i rc s2 h2
       simp only [Prod.mk.injEq, MRes.tuple.injEq] at heq
       rw [← heq.1]; exact (WFL_reverse _ _).2 (programLoop_E hf hw0 h2)
-    · exact (blockMatch_E hf heq).1
     · simp at heq
+    · split at heq
+      · exact (blockMatch_E hf heq).1
+      · simp at heq
 
 theorem altLoop_E {g : G} (hg : GE env.tbl g) (ds pc : List Cls) (s : St) :
     ESpec env.tbl (altLoop env g ds pc s).1 := by
